@@ -991,12 +991,53 @@ def stage_race(ctx, st):
         ctx.log("  data race: " + " | ".join(l.strip() for l in clover[0].splitlines()[1:8]))
 
 
+def stage_apalache(ctx, st):
+    """Symbolic check of a self-contained module with Apalache (bounded data, unbounded byte values).
+    Depends on spec/ only: cached like the TLC model runs."""
+    import hashlib
+    src = open(os.path.join(ctx.spec, st["module"] + ".tla"), "rb").read()
+    key = hashlib.sha256(src + json.dumps([st["init"], st["inv"]]).encode()).hexdigest()[:24]
+    cpath = os.path.join(ctx.root, ".cache", "apalache-%s-%s-%s.json" % (st["module"], st["init"], key))
+    expect = bool(st.get("expect_violation"))
+    if os.path.exists(cpath) and not os.environ.get("VERIF_NOCACHE"):
+        c = json.load(open(cpath))
+        ctx.mc_runs.append(dict(c, cached=True, note="symbolic run cached (it depends on spec/ only)"))
+        ctx.log("Apalache %s %s/%s: %s (cached)" % (st["module"], st["init"], st["inv"], c["outcome"]))
+        return c
+    d = os.path.join(ctx.work, "apalache-" + st["name"])
+    os.makedirs(d, exist_ok=True)
+    shutil.copyfile(os.path.join(ctx.spec, st["module"] + ".tla"), os.path.join(d, st["module"] + ".tla"))
+    t0 = time.time()
+    r = subprocess.run(["timeout", str(st.get("timeout", 900)), "apalache-mc", "check", "--init=" + st["init"], "--next=Next",
+                        "--inv=" + st["inv"], "--length=0", st["module"] + ".tla"], cwd=d, stdout=subprocess.PIPE,
+                       stderr=subprocess.STDOUT, text=True)
+    out = r.stdout
+    if "The outcome is: NoError" in out:
+        outcome = "NoError"
+    elif "state invariant" in out and "violated" in out:
+        outcome = "Violated"
+    else:
+        raise Inconclusive("Apalache gave no verdict on %s:\n%s" % (st["module"], out[-1500:]))
+    if (outcome == "Violated") != expect:
+        raise Inconclusive("Apalache: %s/%s of %s is %s, expected %s (the specification itself is broken)" % (
+            st["init"], st["inv"], st["module"], outcome, "a violation" if expect else "no error"))
+    c = {"config": "%s --init=%s --inv=%s --length=0" % (st["module"], st["init"], st["inv"]), "module": st["module"], "engine": "apalache",
+         "outcome": outcome, "expected_violation": expect, "ok": True, "states": 0, "transitions": 0, "wall_s": round(time.time() - t0, 1)}
+    os.makedirs(os.path.dirname(cpath), exist_ok=True)
+    with open(cpath + ".tmp%d" % os.getpid(), "w") as f:
+        json.dump(c, f)
+    os.replace(cpath + ".tmp%d" % os.getpid(), cpath)
+    ctx.mc_runs.append(c)
+    ctx.log("Apalache %s %s/%s: %s (%.1fs)" % (st["module"], st["init"], st["inv"], outcome, c["wall_s"]))
+    return c
+
+
 def stage_custom(ctx, st):
     return st["fn"](ctx, st)
 
 
 STAGES = {"trace": stage_trace, "mc": stage_mc, "custom": stage_custom, "edges": stage_edges, "aux": stage_aux,
-          "lin": stage_lin, "race": stage_race}
+          "lin": stage_lin, "race": stage_race, "apalache": stage_apalache}
 
 
 # ------------------------------------------------------------------ evidence
